@@ -4176,7 +4176,7 @@ def to_buffers(
             )
 
         if isinstance(layout, ak.layout.EmptyArray):
-            fk = form_key(id=str(key_index))
+            fk = form_key(id=str(key_index), layout=layout)
             key = key_format(form_key=fk, attribute="data", partition=str(part))
             container[key] = little_endian(numpy.asarray(layout))
             return ak.forms.EmptyForm(has_identities, parameters, fk)
